@@ -917,8 +917,11 @@ func (r *run) protoE2S() *proto {
 	}
 	pr.finalize = func(s wobj) (final, error) {
 		agg := *s.(*multiparty.KeySwitchShare)
-		collected := mpckks.NewAdditiveShare(p, r.ct.LogSlots())
+		// the receiver of the finalising party is allocated for the maximum slot count (a share buffer reused across
+		// ciphertexts): only the entries the ciphertext needs are meaningful
+		collected := mpckks.NewAdditiveShare(p, p.LogMaxSlots())
 		e2s.GetShare(&priv[0], agg, r.ct, &collected)
+		collected.Value = collected.Value[:len(priv[0].Value)]
 		// sum of the additive shares against the centred decryption of the input under the ideal secret
 		dslots := len(collected.Value)
 		sum := make([]*big.Int, dslots)
